@@ -112,6 +112,25 @@ def run():
                      {"a": "closeConn", "g": "main2", "wait": True, "ctxMs": 2000}]
             tscs.append({"id": "C20/timedmix/%s/%d" % (pol, k), "kind": "iscp", "conn": {}, "steps": steps,
                          "p": {"policy": pol, "thr": THR * U.UNIT, "intervalMs": ms, "seqMode": False}})
+    # a cut inside a running interval (explicit Flush / size overflow right after a tick) does not postpone the next tick: what is written
+    # afterwards still leaves within one interval (interval 1 s, so that "two intervals" is well beyond the slack)
+    for k, cut in enumerate(("flush", "size")):
+        pol = "interval" if cut == "flush" else "intervalOrSize"
+        steps = [{"a": "connect", "must": True},
+                 {"a": "openUp", "obj": "U1", "qos": "reliable", "policy": {"k": pol, "ms": 1000, "size": 10}, "must": True},
+                 {"a": "ackMode", "mode": "auto"},
+                 {"a": "write", "g": "S", "obj": "U1", "id": "A", "pts": [[1, 4]], "wait": True},
+                 {"a": "await", "ev": "BRecvChunk", "match": {"seq": 1}, "ms": 2500, "must": True}]      # aligned with the ticker
+        if cut == "flush":
+            steps += [{"a": "write", "g": "S", "obj": "U1", "id": "A", "pts": [[2, 4]], "wait": True}, {"a": "flush", "g": "S", "obj": "U1", "ctxMs": 2000, "wait": True}]
+        else:
+            steps += [{"a": "write", "g": "S", "obj": "U1", "id": "A", "pts": [[2, 12]], "wait": True}]
+        steps += [{"a": "sleep", "ms": 30}, {"a": "write", "g": "S", "obj": "U1", "id": "B", "pts": [[3, 4]], "wait": True},
+                  {"a": "sleep", "ms": 2300}, {"a": "state", "obj": "U1"},
+                  {"a": "closeUp", "g": "S", "obj": "U1", "wait": True, "ctxMs": 3000}, {"a": "quiesce"},
+                  {"a": "closeConn", "g": "main2", "wait": True, "ctxMs": 2000}]
+        tscs.append({"id": "C20/cutInInterval/%s" % cut, "kind": "iscp", "conn": {"pingMs": [5000, 2000]}, "steps": steps,
+                     "p": {"policy": pol, "thr": 10, "intervalMs": 1000, "seqMode": False}})
     for sc in tscs:     # timed scenarios: scheduling stalls of a loaded machine are recorded and added to the interval bound
         sc["steps"] = [{"a": "stallWatch"}] + sc["steps"] + [{"a": "stallWatch", "mode": "off"}]
     ttrace = ctx.run_scenarios(tscs, "c20t", par=4)
